@@ -24,6 +24,15 @@ THEOREMS = [
     "ProbLogProofs.C07.C07_perm_queries_run",
 ]
 
+# first-order level: permuting the statements / renaming the variables of a statement does not change `SemFO.run`
+MODULE_FO = "ProbLogProofs.Properties.C07FO"
+THEOREMS_FO = [
+    "ProbLogProofs.C07FO.C07FO_run_rename_choices",
+    "ProbLogProofs.C07FO.C07FO_stmt_perm",
+    "ProbLogProofs.C07FO.C07FO_stmt_perm_run",
+    "ProbLogProofs.C07FO.C07FO_var_rename",
+]
+
 MANIFEST = {
     "level": "other",
     "technique": "Lean 4 specification (Sem) with permutation-invariance theorems, executed as the single reference for all "
@@ -88,6 +97,7 @@ def run(ctx):
     ctx.rule = ("generated programs x seeded permutations of statements / bodies / query and evidence order; a case = one "
                 "program with its permutation seed; non-trivial = at least one query instance and more than one world")
     return cfgprop.run(ctx, MODULE, THEOREMS, variants, nq=50, nt=500, level="other", gen_kwargs={"disjunction": True},
+                       extra_modules=[(MODULE_FO, THEOREMS_FO)],
                        explanation="Specification-level permutation invariance is proved in Lean (see obligation list); "
                                    "the engine is compared with the specification on every permuted run (exploration of the "
                                    "order quantifier, not a proof about the engine).")
